@@ -30,7 +30,7 @@ CHECKS['C01'] = dict(
     text=("Explicit-state BFS over instruction streams on the real execute_instructions (proof phase; empty theory and "
           "a valid theory; full 43-instruction alphabet to depth 4/5 and a rule-centred 22-instruction alphabet to depth "
           "6/7, states deduplicated by canonical dump) plus a derivation-closure search that saturates the theorem set "
-          "under the real ModusPonens/Generalization/Substitution/Instantiate executed as bytes. Invariant in every "
+          "under the real ModusPonens/Generalization/Substitution/Instantiate executed as bytes (plus three deeper closures over the unary rules with targeted plug pools and one with a derived weakening step). Invariant in every "
           "state: every term tagged Proved is valid -- every admissible instance over a pool of concrete plugs evaluates "
           "to the full carrier in every model of the enumerated class (carriers 1-2 complete, carrier 3 thorough)."),
     note=("Trusted: the finite-model evaluator inside the harness (cross-checked on every run against the Python "
@@ -163,7 +163,8 @@ CHECKS['C02'] = dict(
           "substitutions, constrained metavariables) and exists_generalization. Every expression the toolkit accepts "
           "becomes a module serialised by the real ProofExp.serialize with optimisation off and on; the real checker's "
           "verify() and the reference machine must accept and discharge exactly the advertised claim. The shipped modules "
-          "are regenerated and verified too."),
+          "are regenerated and verified too; modules with 2-3/4 claims (repetitions included) are built with their proofs "
+          "listed in every order."),
     note=("Known findings: instantiation producing a redundant pending substitution; instantiation violating a declared "
           "constraint. Level 2 expands one representative per distinct level-1 conclusion (capped)."),
     technique='explicit-state search over DSL expressions with the real serializer and the real checker as acceptance oracle',
@@ -177,7 +178,8 @@ CHECKS['C03'] = dict(
           "modes x axiom sharing between modules, each serialised by the real ProofExp.serialize with both settings; the "
           "three files are decoded by the reference machine and its publish journal compared with the declaration under one "
           "injective symbol map: axioms exactly the import closure in order, claims proved in declaration order, same "
-          "journal with optimisation on/off, checker accepts. Capacity cases (symbols, variable ids, memory slots at "
+          "journal with optimisation on/off, checker accepts; every claim list of <=3/4 claims over a pool of four (repetitions, "
+          "adjacent or not); modules re-serialised after a late add_axiom. Capacity cases (symbols, variable ids, memory slots at "
           "255/256/257+) must either encode unambiguously or be refused."),
     note='Trusted: journal decoding by mc/refmachine.py (bound to the checker by C05).',
     technique='bounded-exhaustive enumeration of module declarations; decoded publish journal compared with the declaration',
@@ -203,7 +205,8 @@ CHECKS['C19'] = dict(
           "printed with the owning module's PrettyOptions: applications that expand to different patterns must render "
           "differently; (b) for shipped modules, the import-graph family and DSL expressions, both optimise settings: "
           "the step lines of .pretty-gamma/claim/proof correspond one-to-one, in order, kind and operands, to the "
-          "instructions decoded from .ml-gamma/claim/proof written by the real ProofExp.serialize."),
+          "instructions decoded from .ml-gamma/claim/proof written by the real ProofExp.serialize -- from two fresh module "
+          "objects and from ONE object in either order."),
     note='Trusted: instruction decoder and listing parser in mc/c19.py.',
     technique='bounded-exhaustive enumeration of notation applications and of module files',
     design='5/C19',
@@ -233,7 +236,8 @@ CHECKS['C16'] = dict(
           "journal must show the images of the database's axioms and rules and the image of the target as the one claim "
           "proved, the real checker must accept, and all layouts must agree. Shipped benchmarks are translated and checked too. "
           "Plus every placement of <=2/3 reuse marks on five targets, and databases with 3..200 (700) extra constants whose "
-          "proofs pass the one-, two- and three-letter number ranges."),
+          "proofs pass the one-, two- and three-letter number ranges; sequences of lemmas executed on one converter; histories of "
+          "two databases in one process (a database, then its twin with pairs of labels exchanged)."),
     note=("Known finding: databases whose floating hypotheses are not declared in the order ph0, ph1, ph2 (positional "
           "instantiation of prop-1/prop-2 in exec_proof). Quick tier strides over derivations of all but the first feature vector."),
     technique='BFS over derivations of generated databases; translation validated by reference machine and real checker',
@@ -262,10 +266,11 @@ CHECKS['C18'] = dict(
           "contain one another, translations of shipped and generated Metamath databases with 2+ variables) under every "
           "hash seed of a window selected by VERIF_SEED; every sequence of 2 (and 3) targets serialised in one process, so "
           "that each target is produced after every history; every target serialised three times from one module object (as "
-          "translate.main does). All 12 files (binary and pretty, optimise off and on) must be byte-identical to the baseline "
+          "translate.main does); every target serialised, grown by one declaration and serialised again; every target under two "
+          "answers of the process clocks (a year-old process, readings an hour apart). All 12 files (binary and pretty, optimise off and on) must be byte-identical to the baseline "
           "(fresh process, PYTHONHASHSEED=0, empty history)."),
     note='Hash seeds: 8 (quick) / 32 (thorough) per run; targets the toolkit refuses (known findings of other properties) are dropped.',
-    technique='exhaustive enumeration of (target, hash seed, in-process history) configurations against a baseline',
+    technique='exhaustive enumeration of (target, hash seed, clock answer, in-process history) configurations against a baseline',
     design='5/C18',
 )
 CHECKS['C20'] = dict(
